@@ -185,6 +185,12 @@ func (g *Gen) Run() (err error) {
 	g.exit()
 	// a site clause that matched no instruction states nothing: the code it speaks about is gone
 	if g.con != nil && len(g.inlining) == 0 {
+		for m, n := range g.con.SiteCount {
+			g.siteOrd(m, nil)
+			if have := len(g.siteSeen["site:"+m]); have != n {
+				return fmt.Errorf("%s: the contract accounts for %d instructions matching %q, the function has %d", g.key, n, m, have)
+			}
+		}
 		for _, sc := range g.con.Sites {
 			g.siteOrd(sc.Match, nil)
 			if len(g.siteSeen["site:"+sc.Match]) <= sc.Ord {
